@@ -551,6 +551,20 @@ def c14_oracle(ctx, sid, steps, recs):
         succ = (b"\x34" in sends(tr)) or (rec["after"]["authed"] and not rec["before"]["authed"])
         info = rec["info"]
         kind = info.get("kind")
+        # USERAUTH_FAILURE with partial_success = true acknowledges one factor of a multi-factor login: it needs the
+        # application's AUTH_PARTIALLY_SUCCESSFUL for this request and, for publickey, the same proof as a success
+        if any(m[:1] == b"\x33" and m[-1:] == b"\x01" for m in sends(tr)):
+            pcbs = [ev for ev in tr if ev[0] == "cb"]
+            why = None
+            if not pcbs or pcbs[-1][3] != AUTH_PARTIALLY_SUCCESSFUL:
+                why = "without the callback of this request returning AUTH_PARTIALLY_SUCCESSFUL"
+            elif kind == "publickey" and not (info["attached"] and info["keyok"] and toy_sig_valid(
+                    info["sig"], info["alg"], info["bits"],
+                    my_blob(sid, info["user"], info["service"], info["alg"], info["bits"]))):
+                why = "for a publickey request that carries no valid signature over this session's blob"
+            if why:
+                ctx.fail("partial-success-without-proof", "USERAUTH_FAILURE(partial_success=true) sent " + why,
+                         case=case_repr(sid, steps[:i + 1]), expected="partial_success=false", observed=repr(tr))
         if kind == "publickey" and not info["attached"] and succ:
             ctx.fail("probe-authenticates", "a publickey probe without signature authenticated the client",
                      case=case_repr(sid, steps[:i + 1]), expected="no USERAUTH_SUCCESS", observed=repr(tr))
@@ -954,6 +968,53 @@ def dialogue_witness(ctx):
                          observed={"authenticated": w.handler.authenticated, "get_username": who, "asked": asked})
 
 
+def partial_witness(ctx):
+    """Callback result x proof grid for publickey (toy key): what the client is told must be
+    SUCCESS iff (approved and valid signature), partial_success=true iff (partially approved and valid signature),
+    PK_OK only for a signature-less probe of an acceptable key, otherwise partial_success=false."""
+    World, _, _ = make_world()
+    holder = {}
+    sid, user, service, alg, keyblob = b"SID-m", b"alice", b"ssh-connection", b"toy-b", b"key2"
+    bits = toy_bits(keyblob)
+    base = {"gss": False, "mechok": True, "tok": 1, "micok": True, "kexctx": False, "banner": False,
+            "keyok": True, "bits": bits}
+    blob = my_blob(sid, user, service, alg, bits)
+    sigs = {"valid": toy_sign(alg, bits, blob),
+            "wrong-key": toy_sign(alg, bits + b"z", my_blob(sid, user, service, alg, bits + b"z")),
+            "replay-other-session": toy_sign(alg, bits, my_blob(b"SID-other", user, service, alg, bits)),
+            "replay-other-user": toy_sign(alg, bits, my_blob(sid, b"bob", service, alg, bits)),
+            "garbage": s_(alg) + s_(b"zzzz"), "verify-raises": s_(alg) + s_(b"RAISE"), "no-signature(probe)": None}
+    head = s_(user) + s_(service) + s_(b"publickey")
+    with gss_patch(holder):
+        for res in (0, 1, 2, 3):
+            for variant, sig in sorted(sigs.items()):
+                payload = head + (b"\x00" if sig is None else b"\x01") + s_(alg) + s_(keyblob) + (b"" if sig is None else s_(sig))
+                steps = [(50, payload, dict(base, res=res), None, {})]
+                w = World(sid)
+                holder["world"] = w
+                tr = w.deliver(*steps[0][:3])
+                snd = sends(tr)
+                told = ("success" if b"\x34" in snd else
+                        "partial" if any(m[:1] == b"\x33" and m[-1:] == b"\x01" for m in snd) else
+                        "pk-ok" if any(m[:1] == b"\x3c" for m in snd) else
+                        "failure" if any(m[:1] == b"\x33" for m in snd) else "nothing")
+                if variant == "valid":
+                    want = {0: "success", 1: "partial", 2: "failure", 3: "failure"}[res]
+                elif sig is None:
+                    want = "failure" if res == 2 else "pk-ok"
+                elif variant == "verify-raises":
+                    want = "failure" if res == 2 else "nothing"
+                else:
+                    want = "failure"
+                ctx.count(("partial-witness", res, variant), kind="partial-witness")
+                if told != want:
+                    key = ("partial-success-without-proof" if told == "partial" else
+                           "bad-signature-accepted" if told == "success" else "publickey-answer-wrong")
+                    ctx.fail(key + ":" + variant, "publickey, callback answers %s, signature %s: the client is told %r "
+                             "(must be %r)" % (RES[res], variant, told, want), case=case_repr(sid, steps),
+                             expected=want, observed=repr(tr))
+
+
 def gss_witness(ctx):
     """Deterministic grid over the gssapi paths: callback result x MIC valid x context present x
     accept_sec_context outcome.  Authenticated iff the callback approves AND the proof is valid."""
@@ -1024,6 +1085,7 @@ def run(ctx):
     pin_witness(ctx)
     probe_witness(ctx)
     dialogue_witness(ctx)
+    partial_witness(ctx)
     unbound = run_sequences(ctx, 160 * scale, c14_oracle, "seq")
     blob_cases(ctx, 80 * scale)
     n = real_key_cases(ctx)
